@@ -269,6 +269,7 @@ fn ttlcrash_run(report: &mut Report, seed: u64, rid: u64, dir: &str) -> Option<(
     let past = base_now + 10 * NS;
     let mut checked = 0u64;
     let mut both_on_disk = 0u64;
+    let mut seen_images = std::collections::HashSet::new();
     let mut cuts: Vec<usize> = (g1_durable_at..=events.len()).collect();
     if cuts.len() > 120 {
         rng.shuffle(&mut cuts);
@@ -282,6 +283,9 @@ fn ttlcrash_run(report: &mut Report, seed: u64, rid: u64, dir: &str) -> Option<(
         }
         for recipe in recipes {
             let image = crashimg::build(&base, &events, &recipe);
+            if !seen_images.insert(fnv(&image)) {
+                continue;
+            }
             // how many generations of each key does the independent reader see on this image?
             let two = crate::indep::scan(&image, None, true).map(|s| keys.iter().filter(|k| s.heads.iter().filter(|h| &h.key == *k).count() >= 2).count()).unwrap_or(0);
             both_on_disk += two as u64;
